@@ -28,6 +28,7 @@ import (
 	"math"
 	"regexp"
 	"strconv"
+	"strings"
 	"time"
 )
 
@@ -111,7 +112,7 @@ func IntervalPtr(duration time.Duration) *Interval {
 func ParsePostgreSQLInterval(s string) (result time.Duration, err error) {
 	// TODO: using a regexp to parse this is simple, but inefficient
 	matches := pgIntervalRegexp.FindStringSubmatch(s)
-	if matches == nil {
+	if matches == nil || s == "" {
 		// try to parse in Go format, happens with sqlite
 		result, err = time.ParseDuration(s)
 		if err != nil {
@@ -132,10 +133,16 @@ func ParsePostgreSQLInterval(s string) (result time.Duration, err error) {
 	if err = adjustDuration(&result, matches[pgIntervalRegexp.SubexpIndex("hours")], time.Hour); err != nil {
 		return
 	}
-	if err = adjustDuration(&result, matches[pgIntervalRegexp.SubexpIndex("minutes")], time.Minute); err != nil {
+	// PostgreSQL writes one sign in front of the whole time part: -01:30:00 is
+	// minus ninety minutes, not minus one hour plus thirty minutes
+	timeSign := time.Duration(1)
+	if strings.HasPrefix(matches[pgIntervalRegexp.SubexpIndex("hours")], "-") {
+		timeSign = -1
+	}
+	if err = adjustDuration(&result, matches[pgIntervalRegexp.SubexpIndex("minutes")], timeSign*time.Minute); err != nil {
 		return
 	}
-	if err = adjustDuration(&result, matches[pgIntervalRegexp.SubexpIndex("seconds")], time.Second); err != nil {
+	if err = adjustDuration(&result, matches[pgIntervalRegexp.SubexpIndex("seconds")], timeSign*time.Second); err != nil {
 		return
 	}
 	// sub-seconds require more logic, as the scale depends on the length
@@ -150,7 +157,7 @@ func ParsePostgreSQLInterval(s string) (result time.Duration, err error) {
 		// len(subsecs) is in the range [1..9], so we know that
 		// int64(math.Pow10(...)) will be exactly correct, and evenly divide
 		// time.Second
-		subsecscale := time.Second / time.Duration(math.Pow10(len(subsecs)))
+		subsecscale := timeSign * time.Second / time.Duration(math.Pow10(len(subsecs)))
 		if err = adjustDuration(&result, subsecs, subsecscale); err != nil {
 			return
 		}
@@ -172,10 +179,11 @@ func adjustDuration(d *time.Duration, value string, scale time.Duration) error {
 }
 
 var pgIntervalRegexp = regexp.MustCompile(
-	`^((?P<years>[+-]?\d+) year[s]? )?` +
-		`((?P<months>[+-]?\d+) mon[s]? )?` +
-		`((?P<days>[+-]?\d+) day[s]? )?` +
-		`(?P<hours>[+-]?\d+):(?P<minutes>[+-]?\d+):(?P<seconds>[+-]?\d+)(\.(?P<subseconds>\d+))?$`,
+	// the time part is optional: PostgreSQL prints '3 days'::interval as "3 days"
+	`^((?P<years>[+-]?\d+) year[s]?( |$))?` +
+		`((?P<months>[+-]?\d+) mon[s]?( |$))?` +
+		`((?P<days>[+-]?\d+) day[s]?( |$))?` +
+		`((?P<hours>[+-]?\d+):(?P<minutes>[+-]?\d+):(?P<seconds>[+-]?\d+)(\.(?P<subseconds>\d+))?)?$`,
 )
 
 // FIXME: PG understands that years, months, and days are relative to some
